@@ -326,6 +326,16 @@ func TestC18_Random(t *testing.T) {
 			}
 			which := rapid.IntRange(0, 2).Draw(t, "helper")
 			main := []string{"app", "biz", "rpc"}[which]
+			// a sub type may itself have two segments, and may begin with the helper's own main type
+			// ("rpc_gateway" under RegisterRPCTag): the built name is _<main>_<sub>[_<action>] as given
+			switch rapid.IntRange(0, 5).Draw(t, "subShape") {
+			case 0:
+				sub = main + "_" + sub
+			case 1:
+				sub = sub + "_" + part.Draw(t, "sub2")
+			case 2:
+				sub = main
+			}
 			// aim at the length boundary: built names of exactly 36, 35 and 34 characters
 			if target := rapid.SampledFrom([]int{36, 0, 35, 34, 0}).Draw(t, "targetLen"); target > 0 {
 				room := target - len("_"+main+"_") // characters left for sub[_action]
@@ -344,6 +354,27 @@ func TestC18_Random(t *testing.T) {
 				return
 			}
 			initModel()
+			if !specAccepts(want) {
+				// too many segments for a tag name: the helper must refuse it like RegisterTag does
+				p := vk.Catch(func() {
+					switch which {
+					case 0:
+						log.RegisterAppTag(sub, action)
+					case 1:
+						log.RegisterBizTag(sub, action)
+					default:
+						log.RegisterRPCTag(sub, action)
+					}
+				})
+				if p == nil {
+					failCase(t, want, fmt.Sprintf("helper %s(%q,%q) accepted parts that build the ill-formed name", main, sub, action))
+				}
+				if slices.Contains(log.GetAllTags(), want) {
+					failCase(t, want, "a refused helper call registered something")
+				}
+				vk.Class("helpers-refused")
+				return
+			}
 			var tag *log.Tag
 			p := vk.Catch(func() {
 				switch which {
